@@ -67,6 +67,11 @@ where
             o.slice()[..n].fill(T::default());
             o.produce(n, &[]);
             self.current_delay -= n;
+            if self.current_delay > 0 {
+                // All of the delay has to go out before any input does, even
+                // if the reader frees up output space right now.
+                return Ok(BlockRet::WaitForStream(&self.dst, 1));
+            }
         }
         {
             let (input, _tags) = self.src.read_buf()?;
